@@ -4,8 +4,8 @@
 Hooks: `visit_stmt` (with `prepare_if` for `if`), `visit_last_stmt`; state = two line sets.
 -/
 import Selene.Lints.TraverseB
-namespace Selene.Lints.MultipleStatements
-open Selene.Lua Selene.Lints
+namespace Selene.LintsB.MultipleStatements
+open Selene.Lua Selene.LintsB
 
 structure St where
   ifLines : List Nat := []
@@ -42,4 +42,4 @@ def step (layout : Layout) (σ : St) : Node → St
 
 def run (layout : Layout) (b : Block) : List Diag := ((nBlock b).foldl (step layout) {}).diags
 
-end Selene.Lints.MultipleStatements
+end Selene.LintsB.MultipleStatements
